@@ -237,7 +237,8 @@ struct Judge {
 
 struct Counters {
   uint64_t edges = 0, proxies = 0, masters = 0, mirrors = 0, mirrorListEntries = 0, policyEdges = 0, hostsNoNodes = 0,
-           hostsNoEdges = 0, highDegSources = 0, dstOwnedSources = 0, hostIdQueries = 0, replicaEdges = 0;
+           hostsNoEdges = 0, highDegSources = 0, dstOwnedSources = 0, hostIdQueries = 0, replicaEdges = 0,
+           edgeCutClaimEdges = 0, edgeCutClaimHosts = 0, vertexCutClaimHosts = 0, gridClaimMirrorEndpoints = 0;
 };
 
 static std::string e3(const Edge3& e) {
@@ -385,6 +386,10 @@ static void judgeCase(Judge& Jd, Counters& C, const CaseArgs& a, const ref::RefG
   std::vector<GE> all;
   for (unsigned h = 0; h < np; ++h) {
     HostObs& o = obs[h];
+    if (!mining && np > 1)
+      (o.vertexCut ? C.vertexCutClaimHosts : C.edgeCutClaimHosts)++;
+    if (!mining && o.gridR && o.gridC && o.gridR * o.gridC != np) // GALOIS_ASSERT in GluonSubstrate's constructor
+      Jd.bad("cartesian-grid-size", J().kv("host", h).kv("rows", o.gridR).kv("cols", o.gridC).kv("hosts", np));
     if (o.edges.size() != o.sizeEdges)
       Jd.bad("edge-count-vs-sizeEdges", J().kv("host", h).kv("iterated", o.edges.size()).kv("sizeEdges", o.sizeEdges));
     for (auto& le : o.edges) {
@@ -397,6 +402,42 @@ static void judgeCase(Judge& Jd, Counters& C, const CaseArgs& a, const ref::RefG
         Jd.bad("edge-beyond-numNodesWithEdges",
                J().kv("host", h).kv("src_lid", le.s).kv("numNodesWithEdges", o.nodesWithEdges).kv("size", o.size));
       Edge3 ge{o.l2g[le.s], o.l2g[le.d], le.w};
+      // ---- what the consumer of the flags (GluonSubstrate, constructed by DistBench/Start.h with isTransposed() and
+      // cartesianGrid(); MiningGraph goes to GluonEdgeSubstrate and is not judged here) assumes about the structure:
+      // * !is_vertex_cut(): sync_src_to_src (not transposed) / sync_dst_to_dst (transposed) do nothing and the other
+      //   calls drop the reduce or the broadcast half (GluonSubstrate.h sync_*_to_*): mirrors are never sources of
+      //   local edges (not transposed), never destinations of local edges (transposed)
+      if (!mining && np > 1 && !o.vertexCut) {
+        C.edgeCutClaimEdges++;
+        uint64_t mustBeMaster = o.transposed ? le.d : le.s;
+        if (mustBeMaster >= o.numMasters)
+          Jd.bad("claims-edge-cut-but-mirror-has-edges",
+                 J().kv("host", h).kv("is_vertex_cut", false).kv("isTransposed", o.transposed)
+                     .kv(o.transposed ? "mirror_is_destination_lid" : "mirror_is_source_lid", mustBeMaster)
+                     .kv("mirror_gid", o.l2g[mustBeMaster]).kv("numMasters", o.numMasters).raw("local_edge_src_dst_gid", e3(ge))
+                     .kv("grid_rows", o.gridR).kv("grid_cols", o.gridC));
+      }
+      // * cartesianGrid() != (0,0): isNotCommPartnerCVC skips a peer unless it shares the grid row (mirror written/read as
+      //   source, not transposed; as destination, transposed) or the grid column (the other way round) with this host
+      if (!mining && o.gridR && o.gridC && o.gridR * o.gridC == np) {
+        for (int side = 0; side < 2; ++side) {
+          uint64_t l = side == 0 ? le.s : le.d;
+          if (l < o.numMasters)
+            continue;
+          uint64_t g = o.l2g[l];
+          if (masterCount[g] != 1)
+            continue;
+          C.gridClaimMirrorEndpoints++;
+          unsigned y   = (unsigned)masterOf[g];
+          bool needRow = (side == 0) != o.transposed; // source & !transposed, destination & transposed
+          bool ok      = needRow ? (h / o.gridC == y / o.gridC) : (h % o.gridC == y % o.gridC);
+          if (!ok)
+            Jd.bad("cartesian-grid-mirror-outside-its-row-or-column",
+                   J().kv("host", h).kv("master_host", y).kv("mirror_gid", g).kv("mirror_is", side == 0 ? "source" : "destination")
+                       .kv("isTransposed", o.transposed).kv("grid_rows", o.gridR).kv("grid_cols", o.gridC)
+                       .kv("needs_same", needRow ? "row" : "column").raw("local_edge_src_dst_gid", e3(ge)));
+        }
+      }
       if (mining && le.s >= o.numMasters) {
         // replica under a mirror source: must be a kept edge (checked below), at most once per host
         C.replicaEdges++;
@@ -945,6 +986,8 @@ int main(int argc, char** argv) {
               .kv("cases_edge_data", (int)a.edgeData).kv("cases_async", (int)(a.cuspAsync))
               .kv("cases_masters_file", (int)wantMasters).kv("cases_defaults", (int)a.defaults)
               .kv("cases_multi_host", (int)(np > 1)).kv("cases_two_threads", (int)(threads > 1))
+              .kv("edges_under_edge_cut_claim", C.edgeCutClaimEdges).kv("hosts_claiming_edge_cut", C.edgeCutClaimHosts)
+              .kv("hosts_claiming_vertex_cut", C.vertexCutClaimHosts).kv("mirror_endpoints_under_grid_claim", C.gridClaimMirrorEndpoints)
               .kv("mining_replica_edges", C.replicaEdges).kv("cases_mining", (int)mining).str());
   }
   MPI_Barrier(comm);
